@@ -367,6 +367,31 @@ let run (cmd : sexp) : sexp =
   | L [A "splitextras"; t] -> (match ReqParse.split_extras (str t) with Some (a, b) -> L [A "ok"; sstr a; sstr b] | None -> A "none")
   | L [A "archive"; t] -> bool_ (ReqParse.looks_like_archive (str t))
   | L [A "striphost"; t] -> sstr (ReqParse.strip_host (str t))
+  | L [A "dnf"; a] -> L (Stdlib.List.map (fun cl -> L (Stdlib.List.map smexpr cl)) (DnfModel.to_dnf (tree a)))
+  | L [A "runi"; pv; pfv; L steps] ->
+      (* a whole program with the crate's own recursions on ids: per step the raw id, the arena length, the cache length *)
+      let rec nat_of_int i = if i <= 0 then Datatypes.O else Datatypes.S (nat_of_int (i - 1)) in
+      let rec int_of_nat = function Datatypes.O -> 0 | Datatypes.S m -> 1 + int_of_nat m in
+      let idx = function A a -> nat_of_int (int_of_string a) | _ -> failwith "driver: index expected" in
+      let raw = function
+        | Store.NTrue -> 0 | Store.NFalse -> 1
+        | Store.NNode (i, c) -> ((int_of_nat i + 1) * 2) + (if c then 1 else 0) in
+      let step_of = function
+        | L [A "expr"; e] -> Intern.MExpr (mexpr e)
+        | L [A "and"; i; j] -> Intern.MAnd (idx i, idx j)
+        | L [A "or"; i; j] -> Intern.MOr (idx i, idx j)
+        | L [A "not"; i] -> Intern.MNot (idx i)
+        | L [A "simpx"; ex; i] -> Intern.MSimplifyExtras (strs ex, idx i)
+        | L [A "simppv"; lo; hi; i] -> Intern.MSimplifyPv ((optcut lo, optcut hi), idx i)
+        | L [A "cplxpv"; lo; hi; i] -> Intern.MComplexifyPv ((optcut lo, optcut hi), idx i)
+        | _ -> failwith "driver: program step expected" in
+      let st = ref InternI.init_i in
+      let out = Stdlib.List.map (fun sx ->
+        st := InternI.mstep_i (num pv) (num pfv) !st (step_of sx);
+        let regs = (!st).InternI.si_regs in
+        let last = Stdlib.List.nth regs (Stdlib.List.length regs - 1) in
+        L [A (string_of_int (raw last)); A (string_of_int (Stdlib.List.length (!st).InternI.si_arena)); A (string_of_int (Stdlib.List.length (!st).InternI.si_cache))]) steps in
+      L (A "ok" :: out)
   | L [A "sem508"; pv; pfv; rels; ss; ex; a] ->
       let e = penv_ rels ss ex in
       let t = Sem508.compile (num pv) (num pfv) (mast a) in
